@@ -477,3 +477,18 @@ package types
 //@ func NewPartSetFromHeader(header PartSetHeader) (r *PartSet)
 //@   for C13 C03
 //@   ensures fresh(r) && r.total == header.Total && r.hash == header.Hash && r.count == 0 && len(r.parts) == header.Total
+
+// ---------------------------------------------------------------- C17: transaction accessors (transactions are immutable)
+//@ spec func gpOf(tx *Transaction) int
+//@ trusted func (tx *Transaction) GasPrice() (r *big.Int)
+//@   ensures fresh(r) && r.v == gpOf(tx) && r.v >= 0
+//@ trusted func (tx *Transaction) GasPriceCmp(other *Transaction) (r int)
+//@   ensures (r < 0 <==> gpOf(tx) < gpOf(other)) && (r == 0 <==> gpOf(tx) == gpOf(other)) && (r > 0 <==> gpOf(tx) > gpOf(other))
+//@ trusted func (tx *Transaction) GasPriceIntCmp(other *big.Int) (r int)
+//@   requires other != nil
+//@   ensures (r < 0 <==> gpOf(tx) < other.v) && (r == 0 <==> gpOf(tx) == other.v) && (r > 0 <==> gpOf(tx) > other.v)
+//@ trusted func (tx *Transaction) Nonce() (r uint64)
+//@ trusted func (tx *Transaction) Gas() (r uint64)
+//@ trusted func (tx *Transaction) Cost() (r *big.Int)
+//@   ensures r != nil
+//@ trusted func (tx *Transaction) Hash() (r common.Hash)
